@@ -1013,6 +1013,29 @@ func (u *universe) runDoc(m *mp.Model, r *rng.R, d *doc, fonts text.FontConfigur
 	if ans.Head() != "ok" || len(ans.Xs) != len(d.nodes)+1 {
 		return fmt.Errorf("model rejected the tree (seed %d): %.300s", caseSeed, ans.String())
 	}
+	// second form of the float boundary: the real parent size sits exactly on a ladder value after
+	// float32 rounding while the exact value of the model does not (or vice versa)
+	for _, n := range d.nodes {
+		if dv, ok := n.decls[pr.PFontSize].(pr.DimOrS); ok && (dv.S == "larger" || dv.S == "smaller") && n.parent >= 0 {
+			pf, ok1 := valA[n.parent][pr.PFontSize].(pr.DimOrS)
+			if len(ans.Xs[n.parent+1].Xs) != N {
+				return fmt.Errorf("model row length %d", len(ans.Xs[n.parent+1].Xs))
+			}
+			mv := ans.Xs[n.parent+1].Xs[int(pr.PFontSize)]
+			if ok1 && mv.Head() == "dim" {
+				want, _ := new(big.Rat).SetString(mv.Xs[1].S)
+				w, exact := want.Float64()
+				if !(exact && w == float64(pf.Value)) {
+					for _, k := range pr.FontSizeKeywords {
+						if math.Abs(float64(pf.Value)-float64(k)) <= float64(k)/(1<<18) || math.Abs(w-float64(k)) <= float64(k)/(1<<18) {
+							out.Hit("skipped:tree-at-float-boundary-of-larger/smaller")
+							return nil
+						}
+					}
+				}
+			}
+		}
+	}
 	for i, n := range d.nodes {
 		row := ans.Xs[i+1]
 		if len(row.Xs) != N {
